@@ -150,3 +150,106 @@ pub fn point(tag: &'static str, args: [u64; 3]) {
     emit(tag, args);
     pause(tag, args);
 }
+
+///////////////////////////////////////// scheduling observers ////////////////////////////////////////
+//
+// Who sleeps on which condition variable.  Every call below is made while the caller holds the
+// mutex that belongs to the condition variable in question (`LsmTree::compaction` for `stall` and
+// `compact`, `KeyValueStore::state` for `needs_flush`), so the registry changes in the same order
+// as the waits and notifications themselves.  A thread is listed from just before it releases the
+// mutex in `Condvar::wait` until it holds the mutex again; `notify` flags the listed sleepers of
+// one condition variable, so "listed and not flagged" means: asleep with no wake-up on its way.
+
+/// One sleeping store thread: store, thread (as in the event log), condition variable, and whether
+/// a notification has been issued for it since it went to sleep.
+#[derive(Clone, Debug)]
+pub struct Parked {
+    pub store: u64,
+    pub thread: u64,
+    pub condvar: &'static str,
+    pub notified: bool,
+}
+
+static PARKED: Mutex<Vec<Parked>> = Mutex::new(Vec::new());
+static SHUTDOWN: Mutex<Vec<u64>> = Mutex::new(Vec::new());
+
+/// The number this thread carries in the event log and in the registry of sleepers.
+pub fn thread_id() -> u64 {
+    thread_num()
+}
+
+/// The calling thread is about to wait on `condvar` of `store`.
+pub fn park(store: u64, condvar: &'static str) {
+    let thread = thread_num();
+    let mut parked = PARKED.lock().unwrap();
+    parked.retain(|p| !(p.store == store && p.thread == thread));
+    parked.push(Parked {
+        store,
+        thread,
+        condvar,
+        notified: false,
+    });
+}
+
+/// The calling thread has returned from its wait; true when a notification was issued for it.
+pub fn unpark(store: u64) -> bool {
+    let thread = thread_num();
+    let mut parked = PARKED.lock().unwrap();
+    let mut notified = false;
+    parked.retain(|p| {
+        if p.store == store && p.thread == thread {
+            notified = p.notified;
+            false
+        } else {
+            true
+        }
+    });
+    notified
+}
+
+/// `condvar` of `store` is being notified (`one`: notify_one); returns how many sleepers this
+/// flags.  Observer only.
+pub fn notify(store: u64, condvar: &'static str, one: bool) -> u64 {
+    let mut parked = PARKED.lock().unwrap();
+    let mut count = 0;
+    for p in parked.iter_mut() {
+        if p.store == store && p.condvar == condvar && !p.notified {
+            p.notified = true;
+            count += 1;
+            if one {
+                break;
+            }
+        }
+    }
+    count
+}
+
+/// The sleepers of `store`.
+pub fn parked(store: u64) -> Vec<Parked> {
+    PARKED
+        .lock()
+        .unwrap()
+        .iter()
+        .filter(|p| p.store == store)
+        .cloned()
+        .collect()
+}
+
+/// Ask the loops of `store` to return to their callers at the point where they would sleep (the
+/// real code has no way to stop its threads); the caller then notifies the condition variables.
+pub fn request_shutdown(store: u64) {
+    let mut shutdown = SHUTDOWN.lock().unwrap();
+    if !shutdown.contains(&store) {
+        shutdown.push(store);
+    }
+}
+
+pub fn shutdown_requested(store: u64) -> bool {
+    SHUTDOWN.lock().unwrap().contains(&store)
+}
+
+/// Forget a store (its address may be reused by the next one).
+pub fn forget(store: u64) {
+    SHUTDOWN.lock().unwrap().retain(|s| *s != store);
+    PARKED.lock().unwrap().retain(|p| p.store != store);
+}
